@@ -111,3 +111,6 @@ func (d *ClientDID) Deactivate() ClientOp {
 
 // Origins is a set of anchor origins of every JSON kind.
 var Origins = []interface{}{nil, "origin-string", float64(42), true, map[string]interface{}{"a": "b", "n": float64(1)}, []interface{}{"x", float64(2)}}
+
+// SuffixOfCreate derives the unique suffix of a create request.
+func SuffixOfCreate(req []byte, code uint) string { return suffixOfCreate(req, code) }
